@@ -119,6 +119,53 @@ pub fn check_nano(c: &NanoCase, st: &mut Stats, exact: bool) -> Result<(), Strin
                 st.class("zone_with_transitions_ok");
             }
         }
+        // The statement's "date-times built from total nanoseconds equal those built from the corresponding (seconds, nanoseconds)
+        // pair" holds for every zone shape, not only where the lookup is trivial (seeded changes C16-r13m1/m2: a shortcut for zones
+        // listing one type, and a fallback to the last transition's type where the zone defines none): zones whose only listed type
+        // is never the answer (a fixed or a DST rule of other types), and zones without a rule queried before / at / after their last
+        // transition, where both constructors must refuse alike.
+        let other = mk(c.off.wrapping_add(3600));
+        if let Ok(y) = other {
+            let one = [ltt];
+            let fixed = Some(tz::timezone::TransitionRule::Fixed(y));
+            if let Ok(z) = TimeZoneRef::new(&[], &one, &[], &fixed) {
+                let a4 = DateTime::from_total_nanoseconds(n, z);
+                let b4 = DateTime::from_timespec(q64, r, z);
+                cmp_dt(n, "from_total_nanoseconds(one listed type + fixed rule of another type)", &a4, &b4)?;
+                st.class("one_type_fixed_rule");
+            }
+            for (k, idx_types) in [(0i64, 1usize), (1, 1), (5, 2), (-1, 1), (0, 0), (3, 0)] {
+                // k >= 0: the last transition is k seconds before the count's second (no type is defined there); k < 0: after it
+                let Some(t) = q64.checked_sub(k) else { continue };
+                let two = [ltt, y];
+                let (types_k, ix): (&[LocalTimeType], u8) = if idx_types == 0 { (&one, 0) } else { (&two, (idx_types - 1) as u8) };
+                let tr = [tz::timezone::Transition::new(t, ix as usize)];
+                if let Ok(z) = TimeZoneRef::new(&tr, types_k, &[], &None) {
+                    let a5 = DateTime::from_total_nanoseconds(n, z);
+                    let b5 = DateTime::from_timespec(q64, r, z);
+                    cmp_dt(n, "from_total_nanoseconds(table zone without a rule)", &a5, &b5)?;
+                    st.class(if k >= 0 { "ruleless_after_last_transition" } else { "ruleless_before_transition" });
+                }
+            }
+        }
+        {
+            use tz::timezone::{AlternateTime, MonthWeekDay, RuleDay, TransitionRule};
+            let std = LocalTimeType::new(3600, false, Some(b"STD")).map_err(|e| format!("{e:?}"))?;
+            let dst = LocalTimeType::new(7200, true, Some(b"DST")).map_err(|e| format!("{e:?}"))?;
+            let alt = AlternateTime::new(std, dst, RuleDay::MonthWeekDay(MonthWeekDay::new(3, 5, 0).unwrap()), 7200, RuleDay::MonthWeekDay(MonthWeekDay::new(10, 5, 0).unwrap()), 10800)
+                .map_err(|e| format!("{e:?}"))?;
+            let rule = Some(TransitionRule::Alternate(alt));
+            for listed in [&[std][..], &[dst][..], &[ltt][..]] {
+                if let Ok(z) = TimeZoneRef::new(&[], listed, &[], &rule) {
+                    let a6 = DateTime::from_total_nanoseconds(n, z);
+                    let b6 = DateTime::from_timespec(q64, r, z);
+                    cmp_dt(n, "from_total_nanoseconds(one listed type + DST rule)", &a6, &b6)?;
+                    if let Ok(d) = &a6 {
+                        st.class(if d.local_time_type().is_dst() { "one_type_dst_rule_in_dst" } else { "one_type_dst_rule_in_std" });
+                    }
+                }
+            }
+        }
     }
     Ok(())
 }
@@ -126,14 +173,16 @@ pub fn check_nano(c: &NanoCase, st: &mut Stats, exact: bool) -> Result<(), Strin
 fn cmp_dt(n: i128, what: &str, a: &Result<DateTime, TzError>, b: &Result<DateTime, TzError>) -> Result<(), String> {
     match (a, b) {
         (Ok(x), Ok(y)) => {
-            let fx = (x.year(), x.month(), x.month_day(), x.hour(), x.minute(), x.second(), x.nanoseconds(), x.unix_time(), x.local_time_type().ut_offset());
-            let fy = (y.year(), y.month(), y.month_day(), y.hour(), y.minute(), y.second(), y.nanoseconds(), y.unix_time(), y.local_time_type().ut_offset());
+            let fx = (x.year(), x.month(), x.month_day(), x.hour(), x.minute(), x.second(), x.nanoseconds(), x.unix_time(), x.local_time_type().ut_offset(), x.local_time_type().is_dst(), x.local_time_type().time_zone_designation().to_string());
+            let fy = (y.year(), y.month(), y.month_day(), y.hour(), y.minute(), y.second(), y.nanoseconds(), y.unix_time(), y.local_time_type().ut_offset(), y.local_time_type().is_dst(), y.local_time_type().time_zone_designation().to_string());
             if fx != fy {
                 return Err(format!("n={n}: {what}: {fx:?} vs {fy:?}"));
             }
             Ok(())
         }
         (Err(TzError::OutOfRange), Err(TzError::OutOfRange)) => Ok(()),
+        // a zone that defines no local time type at the instant: both constructors refuse (which diagnostic is not pinned)
+        (Err(TzError::NoAvailableLocalTimeType), Err(TzError::NoAvailableLocalTimeType)) => Ok(()),
         _ => Err(format!("n={n}: {what}: {:?} vs {:?}", a.as_ref().map(|d| d.to_string()), b.as_ref().map(|d| d.to_string()))),
     }
 }
